@@ -39,7 +39,7 @@ def run_config(chk, tier, cfgname):
     common.protocol_rows(chk, prog, "O5-O8-protocol", ["collect_debt", "finish_cycle", "start_sweeping", "cycle_debt"],
                          per_method=False, aspects=("safety",))
     # O1 free-site discipline
-    PRIMS = globals()["PRIMS"] + [prog.arena_drop_walker()]
+    PRIMS = globals()["PRIMS"] + prog.arena_drop_walkers()
     n = common.confined(chk, prog, "O1-free-sites", "gc_ptr::GcPtr::drop_in_place", PRIMS + TABLED,
                         "value destructed outside sweep/arena drop and outside every table-analysed primitive")
     n += common.confined(chk, prog, "O1-free-sites", "gc_ptr::GcPtr::dealloc",
